@@ -71,6 +71,14 @@ def step (s : LP Hash) (ws : List String) : LP Hash × String :=
       let (s', r) := processBlock H N s { num := num, events := evs }
       (s', resStr r)
     | _, _ => (s, "bad-op")
+  -- an attempt at this block in which some storage statement failed: the transaction is rolled back, nothing is recorded
+  -- (`processBlockF`); the harness reports the attempt under this name only when the injected fault actually fired
+  | "blkF" :: num :: evs =>
+    match num.toNat?, evs.mapM parseEv with
+    | some num, some evs =>
+      let (s', r) := processBlockF H N s { num := num, events := evs }
+      (s', resStr r)
+    | _, _ => (s, "bad-op")
   | ["reorg", b] => match b.toNat? with
     | some b => (reorg s b, "ok")
     | none => (s, "bad-op")
